@@ -90,23 +90,20 @@ Definition fm_step (m : slotmap) (o : fop) : slotmap * obs * list N :=
 (* ---- the reference: a finite map id -> value as an association list without duplicate ids,
    bounded by the capacity; insert of a present id fails with KeyAlreadyExists (checked
    first), insert into a full map with IsFull, both change nothing.  The order of list_keys and
-   of the drops at container drop is not fixed by the reference (compared as multisets).
-   dev = true reproduces the deviation inherited from the slot map: with capacity 0 insert
-   panics instead of returning IsFull. *)
+   of the drops at container drop is not fixed by the reference (compared as multisets). *)
 Record fmap := { fcap : N; fkv : list (N * N) }.
 Definition fmap_new (c : N) : fmap := {| fcap := c; fkv := [] |}.
 Fixpoint alookup (l : list (N * N)) (id : N) : option N :=
   match l with [] => None | (k, v) :: t => if N.eqb k id then Some v else alookup t id end.
 Definition aremove (l : list (N * N)) (id : N) : list (N * N) := filter (fun kv => negb (N.eqb (fst kv) id)) l.
 
-Definition fmap_step (dev : bool) (s : fmap) (o : fop) : fmap * obs * list N :=
+Definition fmap_step (s : fmap) (o : fop) : fmap * obs * list N :=
   match o with
   | FInsert id v =>
     match alookup (fkv s) id with
     | Some _ => (s, OErr EKeyExists, [v; KTAG + id])
     | None =>
-      if dev && N.eqb (fcap s) 0 then (s, OP, [])
-      else if N.ltb (lenN (fkv s)) (fcap s) then ({| fcap := fcap s; fkv := fkv s ++ [(id, v)] |}, OUnit, [])
+      if N.ltb (lenN (fkv s)) (fcap s) then ({| fcap := fcap s; fkv := fkv s ++ [(id, v)] |}, OUnit, [])
       else (s, OErr EIsFull, [KTAG + id; v])
     end
   | FGet id | FGetRef id => (s, OO (alookup (fkv s) id), [])
